@@ -48,13 +48,14 @@ def job(args):
     if not ks:
         res["status"] = "no-qualifying-index"
         return res
-    status, mod = K.generate(member, [KernelType.evaluate])
+    status, mod = K.generate(member, [KernelType.evaluate, KernelType.assemble, KernelType.compute])
     if status != "ok":
         res["status"] = status
         return res
-    fn = mod.definitions[0]
+    fn, f_asm, f_cmp = mod.definitions
     for k in ks:
-        res["static"].append((k, SI.dead_dim(fn, k)))
+        for kind, f in (("evaluate", fn), ("assemble", f_asm), ("compute", f_cmp)):
+            res["static"].append((f"{k}:{kind}", SI.dead_dim(f, k)))
     rng = random.Random(f"{seed}:{member.key}")
     a = member.assignment
     for sizes, inputs in K.input_samples(member, tier, rng):
@@ -75,12 +76,20 @@ def job(args):
                 if r[0] != "return":
                     res["failures"].append(dict(what=f"kernel failed with {k} scaled x{scale}: {r}", sizes=sz, k=k))
                     break
-                counts.append((st.loop_iterations, st.steps))
+                # the assemble and compute kernels are kernels too: assemble, then compute on its output
+                st2, _ = K.fresh_state(member, sz, ins)
+                r1 = K.run_function(f_asm, st2)
+                it_asm, steps_asm = st2.loop_iterations, st2.steps
+                r2 = K.run_function(f_cmp, st2) if r1[0] == "return" else ("skipped",)
+                if r1[0] != "return" or r2[0] != "return":
+                    res["failures"].append(dict(what=f"assemble/compute failed with {k} scaled x{scale}: {r1} {r2}", sizes=sz, k=k))
+                    break
+                counts.append((st.loop_iterations, st.steps, it_asm, steps_asm, st2.loop_iterations - it_asm, st2.steps - steps_asm))
             res["runs"] += 1
             if any(d.coords for d in inputs.values()):
                 res["nontrivial"] += 1
             if len(set(counts)) > 1:
-                res["failures"].append(dict(what=f"loop iterations/steps depend on the size of {k}: x1,x10,x10^4 -> {counts}", sizes=sizes, k=k,
+                res["failures"].append(dict(what=f"loop iterations/steps (evaluate, assemble, compute) depend on the size of {k}: x1,x10,x10^4 -> {counts}", sizes=sizes, k=k,
                                             inputs={n: d.indices for n, d in inputs.items()}))
         if len(res["failures"]) > 3:
             break
